@@ -607,7 +607,7 @@ def gen_c04(rnd, n, thorough=False):
         t0 = 3 * 10 ** 8 + rnd.randint(0, 10 ** 8)
         lines = [_create('f', layout, 2, 0x3f000000), "upd f %d %d %016x %d" % (a, t0, fbits(7.0), t0)]
         base = t0 - t0 % S
-        for d in [0, S, rnd.randint(1, R - 1), R - 1, R + rnd.randint(0, R)]:
+        for d in [0, S, rnd.randint(1, max(R - 1, 1)), R - 1, R + rnd.randint(0, R)]:
             now = base + 2 ** 31 + d
             if now >= 2 ** 32:
                 continue
